@@ -46,7 +46,7 @@ UNPROVED = ["ops_commute_rot90 is proved for every integer k, every validity mas
             "carried along; the statement fixes how g is obtained from f (same mesh, validity, values relocated), it does not construct g"]
 BUDGET = {"quick": 120, "thorough": 1200}
 
-DIMPOOL = ["x", "y", "z", "a", "b", "c", "u", "v", "w", "t"]
+DIMPOOL = ["x", "y", "z", "a", "b", "c", "u", "v", "w", "t", "yy", "pq"]
 LABELPOOL = ["p", "q", "r", "s", "g", "h", "e", "k", "ma", "mb", "mc", "b1", "b2", "b3"]
 OPS = ("grad", "div", "curl", "laplace")
 
@@ -107,6 +107,9 @@ def gen_mesh(rng, exact=True, ndim=None, min_n=1, nmax=5, max_cells=150, bc_prob
     bc = ""
     if rng.random() < bc_prob and all(len(d) == 1 for d in dd):
         bc = "".join(d for d in dd if rng.random() < 0.5)
+    elif rng.random() < bc_prob / 3 and any(len(d) == 1 for d in dd):
+        # periodic directions next to axes with multi-character names (bc can only name single-character axes)
+        bc = "".join(d for d in dd if len(d) == 1 and rng.random() < 0.7)
     # corners given in random order (p1/p2 need not be pmin/pmax)
     flip = [rng.random() < 0.3 for _ in range(ndim)]
     p1 = [float(b if f else a) for a, b, f in zip(pmin, pmax, flip)]
@@ -791,7 +794,15 @@ def nontrivial(case, obs):
 
 def known(case, text):
     # D55 (vector Laplacian lost labels/mapping) and D56 (Mesh.rotate90 kept bc) are FIXED in /repo: the corpus keeps
-    # both witnesses as regression cases and nothing is excused any more
+    # both witnesses as regression cases and nothing is excused any more.
+    # D57 (open): the bc string cannot follow an odd quarter turn that exchanges a periodic axis with an axis whose
+    # name has several characters; only that class is excused.
+    m = re.match(r"rot90\(([^,]+),([^,]+),k=(-?\d+)\)", text)
+    bc = (case.get("mesh") or {}).get("bc") or ""
+    if m and bc and int(m.group(3)) % 2 == 1:
+        a, b = m.group(1), m.group(2)
+        if (a in bc or b in bc) and (len(a) > 1 or len(b) > 1):
+            return "D57"
     return None
 
 
